@@ -44,6 +44,8 @@ def gen_cases(rng, n):
                          ["node", "div", [["node", "mul", [lf(m), lf(kg)]], ["node", "mul", [lf(s), lf(kg)]]]]]],
         ["node", "sqrt", [["node", "mul", [lf(m), lf(m)]]]],
         ["powc", ["node", "div", [lf(m), lf(s)]], 1, 2],
+        ["node", "add", [["leaf", [["kg", 1, 1], ["m", 0, 1]], "kg*m^0"], lf(kg)]],
+        ["node", "sub", [lf(kg), ["node", "mul", [["leaf", [["kg", 1, 1], ["m", 0, 1]], "kg*m^0"], ["const"]]]]],
         ["node", "add", [lf(m), lf(s)]],                       # genuine mismatch
         ["node", "sub", [["node", "mul", [lf(m), lf(s)]], lf(m)]],  # genuine mismatch
     ]
